@@ -83,6 +83,20 @@ def run(res: C.Result):
             p["steps"] = 10 if quick else 14
             p["max_cycles"] = 3
         cases.append({"program": p, "workdir": str(res.workdir)})
+    # grand-canonical runs whose max_cycles is left to the constructor's default (one cycle per atom present AT CONSTRUCTION): after accepted
+    # insertions / deletions a simulation rebuilt from the file holds another number of atoms and must still run the original number of cycles
+    # (seeded change C07-11: a defaulted max_cycles written to the file as None)
+    r9 = random.Random(res.seed ^ 0xD3FA)
+    import math as _m
+    for k in range(6 if quick else 60):
+        p = progs.gen_program(r9, k, ensembles=("gc",), multi_insert=True)
+        p.update(criteria="shipped", vetoes=[], steps=8 if quick else 12, calc="caching", max_attempts=2, fixed=[], T=3000.0, default_max_cycles=True)
+        m_ = sum({"H": 1.008, "O": 15.999, "Ar": 39.948}[x] for x in p["exchange"]["symbols"])
+        lam3 = (17.458 / _m.sqrt(m_ * 3000.0)) ** 3
+        p["mu"] = round(8.617333e-5 * 3000.0 * _m.log(max(p.get("N0", 1), 1) * lam3 / 300.0), 3)
+        for mv_ in p["moves"]:
+            mv_.pop("minimum_count", None)
+        cases.append({"program": p, "workdir": str(res.workdir)})
     for drv in ("fbmc", "afbmc"):
         cases.append({"driver": drv, "seed": 5, "program": {"steps": 3}, "workdir": str(res.workdir)})
     res.workdir.mkdir(parents=True, exist_ok=True)
